@@ -138,7 +138,8 @@ CLAIMS = {
              "a who-may-write rule shows that the pairing state of the handler (the argument whose value list is open) "
              "is written by no function that runs once per chunk of words, so a value list continues across file "
              "lines / environment / argv exactly as across argv words; the line loop of the argument file runs for every "
-             "line the read delivers (incl. an unterminated last line). Other quoting disciplines and "
+             "line the read delivers (incl. an unterminated last line); the sub-group handler a word is dispatched to "
+             "evaluates it in the read mode of the dispatching handler. Other quoting disciplines and "
              "value equality between sources are not decided.",
         note="trusts clang AST/CFG; std::string append/clear semantics; round trip claimed for backslash escaping only",
         also=("engine A (cfg.py)", "engine C (lin.py, bounds.py)"),
